@@ -167,6 +167,19 @@ def replay_ordering(args):
 
 
 def replay_memo(args):
+    if args.get("what") == "sv_tensors":
+        from yv.props import c05
+
+        env = c05.Env(None)
+        sv_used = None
+        for nf in args["seq"]:
+            got, _, _, sv_used = c05.run_real_sv(env, nf, args["pto"], True, True, "qg", sv=sv_used)
+        fresh = c05.run_real_sv(env, args["seq"][-1], args["pto"], True, True, "qg")[0]
+        bad = [(k, pid, float(got[k][pid]), float(fresh[k][pid])) for k in fresh for pid in fresh[k]
+               if abs(float(got.get(k, {}).get(pid, 0)) - float(fresh[k][pid])) > 1e-9 * max(1.0, abs(float(fresh[k][pid])))]
+        if bad:
+            return True, f"scale-variation tensors for nf={args['seq'][-1]} after serving nf={args['seq'][:-1]}: {bad[:3]} (used manager vs fresh manager)"
+        return False, "same tensors"
     if args.get("what") == "ren_coeffs":
         from yadism.esf import scale_variations as svmod
 
@@ -443,6 +456,31 @@ def run(chk, only=None):
                 else:
                     chk.report("memo:ren_coeffs:history", f"ScaleVariations.ren_coeffs depends on the nf values asked before (order {order}, sequence {seq})",
                                "memo", dict(what="ren_coeffs", order=order, seq=seq))
+        # the scale-variation tensors a compute_local emits for a given nf are the same whether the manager is fresh or has
+        # served other nf regions before (any memo inside apply_common/apply_diff_scale_variations must be keyed by nf)
+        from yv.props import c05
+
+        for pto, seq in ((2, (3, 4)), (2, (5, 4)), (3, (4, 5, 4)), (1, (4, 5))) if q else ((2, (3, 4)), (2, (5, 4)), (3, (4, 5, 4)), (1, (4, 5)), (3, (3, 6)), (2, (6, 3, 4))):
+            with Ctx(chk.seed) as ctx:
+                env = c05.Env(ctx)
+                try:
+                    sv_used = None
+                    for nf in seq:
+                        got, _, _, sv_used = c05.run_real_sv(env, nf, pto, True, True, "qg", sv=sv_used)
+                    fresh = c05.run_real_sv(env, seq[-1], pto, True, True, "qg")[0]
+                except Exception as e:  # noqa
+                    chk.inconclusive_note(f"sv history {seq}: harness exception {e!r}")
+                    continue
+                prs = []
+                for key in sorted(set(got) | set(fresh)):
+                    for pid in sorted(set(got.get(key, {})) | set(fresh.get(key, {}))):
+                        prs.append((f"order{key}[{pid}]", got.get(key, {}).get(pid, 0), fresh.get(key, {}).get(pid, 0)))
+
+                def rp_for(lab, pto=pto, seq=seq):
+                    return lambda model: ("memo", dict(what="sv_tensors", pto=pto, seq=list(seq), label=lab))
+
+                harness.prove_pairs(chk, f"memo:sv-tensors:pto{pto}:nf{seq}", prs, ctx.facts(), rp_for, lambda lab: "memo:sv_tensors:history",
+                                    sample={"sequence": list(seq), "pto": pto, "entries": len(prs)})
         # interpolator memo: distinct arguments -> distinct grids, same arguments -> same object
         loads = []
 
